@@ -167,6 +167,16 @@ CHECKS = {
              "labelled pairs x frame sizes for L; TLC checks ranges and self-perfection; exact rationals are compared to 1e-9 "
              "with tmeasure/lmeasure (random beta), frame-size variants of one pair back to back.",
         ref="4/C17"),
+    "C18": dict(
+        technique="TLA+ definition of multipitch resampling, per-frame maximum matchings and the 14 scores; identities "
+                  "model-checked; rows replayed; identities re-checked by a TLA+ trace spec on recorded outcomes",
+        text="Multipitch.tla defines nearest-frame resampling (empty outside the estimate's range), raw and chroma "
+             "per-frame true positives as maximum matchings and all 14 scores as rationals. MC_C18 enumerates every pair of "
+             "small ragged inputs x {same, late, early} estimate time bases x windows and checks E_tot = E_sub+E_miss+E_fa, "
+             "errors >= 0, Acc <= min(P,R), TP <= min(#ref,#est), chroma TP >= raw TP. Rows are replayed into "
+             "resample_multipitch, compute_num_true_positives, metrics and evaluate (exact rationals, 1e-9); outcomes of "
+             "larger seeded inputs are judged by Trace_C18.",
+        ref="4/C18"),
 }
 
 PENDING = "check not built yet (build in progress; see DESIGN.md section 10)"
